@@ -45,6 +45,11 @@ def catalogue(im, r, bs):
     nx = len(im.xattr_sets)
     for i in list(range(min(nx, 30))) + [nx, nx + 1, 0xFFFF, 0xFFFFFFFE]:
         q.append("X %d" % i)
+    # low level walk of a set with another descriptor looked up between key and value: the answer is defined by the set alone
+    for i in range(min(nx, 6)):
+        q.append("Y %d -1" % i)
+        q.append("Y %d %d" % (i, (i + 1) % max(nx, 1)))
+        q.append("Y %d %d" % (i, nx + 5))
     for i in list(range(min(len(im.ids), 20))) + [len(im.ids), 65535]:
         q.append("D %d" % i)
     for pos in sorted(im.meta_blocks):
@@ -154,6 +159,15 @@ def run_image(arg):
                 oc.inconclusive.append("reference run answered %d of %d queries (rc=%s)" % (len(ref), len(cat), res.rc))
                 return oc
             refmap = dict(zip(cat, ref))
+            # Y a j must not depend on j
+            ys = {}
+            for qq, a in refmap.items():
+                if qq.startswith("Y "):
+                    ys.setdefault(qq.split()[1], set()).add(a)
+            for a_, answers in ys.items():
+                oc.inc("xattr_lowlevel_walks")
+                if len(answers) > 1 and kind == "tool":
+                    oc.violate("history:xattr-descriptor-lookup-moves-the-key-value-cursor", "set %s: answers %r depend on the descriptor looked up in between" % (a_, sorted(answers)[:3]), {"image.sqfs": data[:1 << 20]})
             oc.inc("catalogue_queries", len(cat))
             oc.inc("catalogue_failing_queries", sum(1 for a in ref if not a.startswith("0 ")))
             for k in set(x[0] for x in cat):
